@@ -5,7 +5,7 @@
     What is NOT proved is the encoder half: that EVERY output of [eb_encode] passes the check (the lemma
     `eb_encode c2v opp nv niso ndeg = EOk o -> class_script c2v opp nf o = true`).  The Examples of Properties_EBSIM.v run
     the check on encodings with events (a torus, a disc with a hole). *)
-From Coq Require Import ZArith List Bool Lia ZifyBool Arith PeanoNat.
+From Coq Require Import ZArith List Bool Lia ZifyBool Arith PeanoNat Sorting.Sorted.
 From Draco Require Import Model.CornerTable Model.EbEncoder Proofs.CornerTable_proofs Proofs.EbEncoder_proofs.
 From Draco Require Model.Edgebreaker.
 From Draco Require Import Proofs.EbSimDec_proofs Proofs.EbSimS_proofs Proofs.EbSimLoop_proofs Proofs.EbSimEv_proofs.
@@ -197,4 +197,102 @@ Proof.
   apply (dec_roundtrip_events c2v opp nf Hlen OK Q Rq ND (3 * F)%Z maxv rm Y eq_refl ltac:(lia) Hm FAN (EVseg_of o) ltac:(lia)); auto.
   - intros j Hj. apply script_atE_b_ok. rewrite forallb_forall in C3. apply C3. apply in_seq. lia.
   - exact (start_ok_b_ok c2v opp nf Q Y (EVseg_of o) _ _ C4).
+Qed.
+
+(** against DecodeConnectivity for the tables of CornerTable::Create (premises as for the other `_ct` statements; the events
+    fit: at most one per face) *)
+Theorem ebsim_roundtrip_checked_ct faces t o rm : ct_create faces = Some t -> eb_encode_ct t = EOk o ->
+  class_script (ct_c2v t) (ct_opp t) (length faces) o = true ->
+  (Z.of_nat (3 * length faces + length (ct_vcorn t)) < 2147483648)%Z ->
+  ((3 * o_nfaces o) / 2 <= (o_nverts o * (o_nverts o - 1)) / 2)%Z ->
+  (Z.of_nat (length (o_events o)) <= o_nfaces o)%Z ->
+  (cntv (rev (o_syms o)) <= o_nverts o + o_nsplit o)%Z ->
+  exists n s, eb_decode_of o rm = D.Ok (n, s) /\ eb_iso (ct_c2v t) (ct_opp t) (o_pcc o) (D.c2v s) (D.copp s).
+Proof.
+  intros H E Cl Sz G3 Hev VF.
+  destruct (ct_create_wf _ _ H) as (L & OK & Hv & FAN & _).
+  destruct (eb_encode_ct_counts faces t o H E) as (_ & _ & _ & _ & _ & Nf & _).
+  destruct (eb_encode_ct_guards faces t o rm H E Sz G3 Hev) as (Eq & _).
+  rewrite Eq. rewrite <- Nf.
+  apply (ebsim_roundtrip_checked (ct_c2v t) (ct_opp t) (length faces) (length (ct_vcorn t)) (ct_niso t) (ct_ndeg t) o rm); auto.
+Qed.
+
+(** ** the events of every encoding are grouped by their source symbol: [rev (REM 0) = o_events o] (bookkeeping, from the
+    sortedness and the ranges in [out_ok]) *)
+Definition ekey (e : Z * Z * Z) : Z := fst (fst e).
+
+Lemma filter_none_all {A} (p : A -> bool) l : (forall e, In e l -> p e = false) -> filter p l = [].
+Proof. induction l as [|a l IH]; intros H; [reflexivity|]. cbn [filter]. rewrite (H a (or_introl eq_refl)). apply IH. intros e He. apply H. right. auto. Qed.
+
+Lemma filter_key_split (n : Z) : forall L, StronglySorted (fun e e' => (ekey e' <= ekey e)%Z) L -> (forall e, In e L -> (ekey e <= n)%Z) ->
+  L = filter (fun e => (ekey e =? n)%Z) L ++ filter (fun e => (ekey e <? n)%Z) L.
+Proof.
+  induction L as [|a L IH]; intros S B; [reflexivity|]. inversion S as [|? ? S' F]; subst. cbn [filter].
+  pose proof (B a (or_introl eq_refl)) as Ba.
+  destruct (ekey a =? n)%Z eqn:E1.
+  - replace (ekey a <? n)%Z with false by lia. cbn [app]. f_equal. apply IH; auto. intros e He. apply B. right. auto.
+  - replace (ekey a <? n)%Z with true by lia.
+    assert (N : filter (fun e => (ekey e =? n)%Z) L = []).
+    { apply filter_none_all. intros e He. rewrite Forall_forall in F. specialize (F e He). lia. }
+    rewrite N. cbn [app]. f_equal. rewrite IH at 1 by (auto; intros e He; apply B; right; auto). rewrite N. reflexivity.
+Qed.
+
+Lemma concat_by_key : forall (n : nat) L, StronglySorted (fun e e' => (ekey e' <= ekey e)%Z) L ->
+  (forall e, In e L -> (0 <= ekey e < Z.of_nat n)%Z) ->
+  concat (map (fun k => filter (fun e => (ekey e =? Z.of_nat (n - 1 - k))%Z) L) (seq 0 n)) = L.
+Proof.
+  induction n as [|n IH]; intros L SS B.
+  - destruct L as [|a L]; [reflexivity|]. specialize (B a (or_introl eq_refl)). lia.
+  - cbn [seq map concat]. rewrite <- seq_shift, map_map.
+    replace (S n - 1 - 0) with n by lia.
+    transitivity (filter (fun e => (ekey e =? Z.of_nat n)%Z) L ++ filter (fun e => (ekey e <? Z.of_nat n)%Z) L);
+      [|symmetry; apply (filter_key_split (Z.of_nat n) L SS); intros e He; specialize (B e He); lia]. f_equal.
+    set (L' := filter (fun e => (ekey e <? Z.of_nat n)%Z) L).
+    assert (S' : StronglySorted (fun e e' => (ekey e' <= ekey e)%Z) L').
+    { unfold L'. clear -SS. induction SS as [|a L SS IHS F]; cbn [filter]; [constructor|]. destruct (ekey a <? Z.of_nat n)%Z; auto.
+      constructor; auto. rewrite Forall_forall in *. intros e He. apply filter_In in He. apply F. apply He. }
+    rewrite <- (IH L' S') at 1.
+    + f_equal. apply map_ext_in. intros k Hk. apply in_seq in Hk. replace (S n - 1 - S k) with (n - 1 - k) by lia.
+      unfold L'. clear - Hk. induction L as [|a L IHL]; [reflexivity|]. cbn [filter].
+      destruct (ekey a <? Z.of_nat n)%Z eqn:E1; cbn [filter]; destruct (ekey a =? Z.of_nat (n - 1 - k))%Z eqn:E2; try (f_equal; exact IHL); try exact IHL.
+      lia.
+    + intros e He. unfold L' in He. apply filter_In in He. destruct He as [He1 He2]. specialize (B e He1). lia.
+Qed.
+
+Theorem events_bookkeeping c2v opp nf nv niso ndeg o :
+  length c2v = 3 * nf -> opp_ok c2v opp -> (forall c, c < 3 * nf -> vtx c2v c < nv) -> one_fan c2v opp ->
+  eb_encode c2v opp nv niso ndeg = EOk o -> rev (REM (rev (o_syms o)) (EVseg_of o) 0) = o_events o.
+Proof.
+  intros Hlen OK Hv FAN E.
+  destruct (eb_encode_total c2v opp nf nv niso ndeg Hlen OK Hv FAN) as [T1 T2].
+  destruct (Nat.eq_dec nf ndeg) as [Eq|Ne]; [rewrite (T1 Eq) in E; discriminate|].
+  destruct (T2 Ne) as (o' & E' & OO & _). rewrite E in E'. inversion E'; subst o'. clear E' T1 T2.
+  destruct OO as (_ & _ & _ & Nsy & _ & _ & _ & _ & Rng & Srt).
+  set (ns := length (o_syms o)) in *.
+  assert (LY : length (rev (o_syms o)) = ns) by apply rev_length.
+  rewrite <- (rev_involutive (o_events o)). f_equal.
+  set (L := rev (o_events o)).
+  assert (SL : StronglySorted (fun e e' => (ekey e' <= ekey e)%Z) L).
+  { unfold L. clear -Srt. induction Srt as [|a l S IH F]; cbn [rev]; [constructor|].
+    assert (G : forall l1 x, StronglySorted (fun e e' => (ekey e' <= ekey e)%Z) l1 -> Forall (fun e => (ekey x <= ekey e)%Z) l1 ->
+              StronglySorted (fun e e' => (ekey e' <= ekey e)%Z) (l1 ++ [x])).
+    { clear. induction l1 as [|b l1 IHl]; intros x S F; cbn [app]; [constructor; constructor|].
+      inversion S; subst. inversion F; subst. constructor; [apply IHl; auto|]. apply Forall_app. split; auto. }
+    apply G; auto. apply Forall_forall. intros e He. apply in_rev in He. rewrite Forall_forall in F. apply (F e He). }
+  assert (BL : forall e, In e L -> (0 <= ekey e < Z.of_nat ns)%Z /\ (0 <= snd (fst e) < ekey e)%Z /\ (snd e = 0 \/ snd e = 1)%Z).
+  { intros [[src spl] ed] He. apply in_rev in He. rewrite Forall_forall in Rng. specialize (Rng _ He). cbn in Rng. unfold ekey. cbn [fst snd]. lia. }
+  unfold REM. rewrite LY, Nat.sub_0_r.
+  etransitivity; [|apply (concat_by_key ns L SL); intros e He; apply (BL e He)].
+  f_equal. apply map_ext_in. intros k Hk. apply in_seq in Hk. unfold rawseg, EVseg_of. rewrite LY. fold ns. fold L.
+  rewrite map_map.
+  assert (X : forall l, (forall e, In e l -> In e L) ->
+    map (fun x => raw_ev ns k (let '(_, spl, ed) := x in (ns - 1 - Z.to_nat spl, (ed =? 1)%Z)))
+        (filter (fun e => let '(src, _, _) := e in (src =? Z.of_nat (ns - 1 - k))%Z) l) =
+    filter (fun e => (ekey e =? Z.of_nat (ns - 1 - k))%Z) l).
+  { induction l as [|[[src spl] ed] l IHl]; intros Hin; [reflexivity|]. cbn [filter]. unfold ekey at 1. cbn [fst].
+    destruct (src =? Z.of_nat (ns - 1 - k))%Z eqn:E1; [|apply IHl; intros e He; apply Hin; right; auto].
+    cbn [map]. f_equal; [|apply IHl; intros e He; apply Hin; right; auto].
+    destruct (BL _ (Hin _ (or_introl eq_refl))) as (B1 & B2 & B3). unfold ekey in B1, B2. cbn [fst snd] in B1, B2, B3.
+    unfold raw_ev. cbn [fst snd]. f_equal; [f_equal; lia|]. destruct B3 as [->| ->]; reflexivity. }
+  apply X. auto.
 Qed.
